@@ -632,6 +632,13 @@ def null_test(tr, i):
             return (ce['recv'], bool(br.val))
         if c.endswith('::operator!'):
             return (ce['recv'], not br.val)
+    if ce is not None and ce.k == 'call' and re.search(r'(^|::)operator(==|!=)$', norm(ce.get('callee') or '')) and len(ce.get('args') or []) == 2:
+        # smart pointer compared with nullptr: a call of std::operator==(const shared_ptr&, nullptr_t)
+        ps = [a.get('path') or '' for a in ce['args']]
+        objs = [p for p in ps if p not in NULLS]
+        if len(objs) == 1 and len([p for p in ps if p in NULLS]) == 1:
+            eq = norm(ce['callee']).endswith('==')
+            return (objs[0], (not br.val) if eq else bool(br.val))
     if ce is not None and ce.k == 'cmp' and ce.get('op') in ('==', '!='):
         l_, r_ = ce.get('lhs') or '', ce.get('rhs') or ''
         side = None
